@@ -166,6 +166,13 @@ def write_evidence(res, mod, exhaustive, nviol, known_ids, harness_err):
         harness_errors=harness_err,
         solver="z3 " + _z3v(),
     )
+    if tier == "thorough":
+        from . import xh
+
+        x = xh.run(pid)
+        if x is not None:
+            cov["crosshair_corroboration"] = dict(note="leaf kernels re-checked by CrossHair 0.0.110 (xh/kernels.py); does not decide "
+                                                       "the property", kernels=x)
     ev = dict(property_id=pid, tier=tier, seed=res["seed"], level="model_checking", coverage=cov,
               assumptions=meta.get("assumptions", []), wall_s=round(res["wall"], 2), violations=nviol)
     os.makedirs(os.path.join(ROOT, "evidence"), exist_ok=True)
